@@ -1164,6 +1164,58 @@ class _Done(Exception):
     pass
 
 
+def through_alias_clause(ctx, col, tree, alias_errors):
+    """(clause, detail) of the first disagreement between lookups through a resolved alias and its final target, else None."""
+    soft = (*alias_errors, KeyError, AttributeError, ValueError)
+    for q, _, m in tree:
+        if not (m.is_alias and m.resolved) or len(q) < 2:
+            continue
+        try:
+            ft = m.final_target
+            target_members = dict(ft.members)
+            through = m.members
+        except soft:
+            continue
+        dotted_alias = ".".join(q)
+        if list(through) != list(target_members):
+            return "dotted-eq-chained", {"alias": dotted_alias, "names_through_alias": sorted(through), "names_of_target": sorted(target_members)}
+        for n2 in list(target_members)[:4]:
+            expected = target_members[n2]
+            full = q + (n2,)
+            dotted = ".".join(full)
+            forms = (("get_member(str)", lambda: col.get_member(dotted)), ("get_member(tuple)", lambda: col.get_member(full)),
+                     ("getitem(str)", lambda: col[dotted]), ("getitem(tuple)", lambda: col[full]),
+                     ("chained", lambda: col.get_member(q).get_member(n2)), ("one-by-one", lambda: functools_reduce_get(col, full)),
+                     ("alias.members", lambda: m.members[n2]))
+            for form_name, f in forms:
+                try:
+                    found = f()
+                except alias_errors:
+                    continue
+                except (KeyError, AttributeError, ValueError) as e:
+                    return "dotted-eq-chained", {"path": dotted, "form": form_name, "raises": type(e).__name__}
+                ctx.observe("impl_only_cross_alias", form_name)
+                if not found.is_alias or found.path != dotted or found.parent is not m:
+                    return "dotted-eq-chained", {"path": dotted, "form": form_name, "found": [bool(found.is_alias), found.path]}
+                if not found.resolved or found.target is not expected:
+                    return "dotted-eq-chained", {"path": dotted, "form": form_name, "leads_to": repr(found.target), "target_holds": repr(expected),
+                                                 "same_object": False}
+                try:
+                    listed = found.target.aliases.get(dotted)
+                except soft:
+                    continue
+                if listed is not found:
+                    return "backref-listed", {"alias": dotted, "form": form_name, "through_alias": True}
+        # a name the target does not have is not found through the alias either
+        try:
+            col.get_member(q + ("zz",))
+            if "zz" not in target_members:
+                return "deleted-gone", {"path": dotted_alias + ".zz", "through_alias": True}
+        except soft:
+            pass
+    return None
+
+
 def impl_only_history(ctx, n, label="impl-only"):
     """Top-down histories that also use alias chains, lookups through aliases and modules with file paths (stub merge).
     Only the clauses that are meaningful there are evaluated: parent/retrievable/dotted=chained/deleted-gone/no-self-target and,
@@ -1283,6 +1335,16 @@ def impl_only_history(ctx, n, label="impl-only"):
                     hist.append(["resolve", ".".join(q)])
                     a.resolve_target()
                     moved.discard(id(a))
+                elif r < 0.90 and len(q) >= 2:
+                    # the alias object moves: deleted where it is, inserted under its own name somewhere else
+                    dests = [(p2, c2) for p2, c2 in conts if p2 and c2 is not a.parent]
+                    if not dests:
+                        continue
+                    p2, c2 = rng.choice(dests)
+                    hist.append(["move", ".".join(q), ".".join(p2)])
+                    col.del_member(".".join(q))
+                    c2.set_member(a.name, a)
+                    ctx.observe("impl_only_event", "alias-moved")
                 else:
                     q2, v = rng.choice(tree)
                     hist.append(["settarget", ".".join(q), ".".join(q2)])
@@ -1359,45 +1421,15 @@ def impl_only_history(ctx, n, label="impl-only"):
                 if fid is None:
                     return
                 continue
-        # dotted / tuple lookup = chained lookup, also ACROSS a resolved alias (the members of an alias are wrappers whose path
-        # continues the alias's path): compare what is observable of the two results
-        if rng.random() < 0.35:
-            def view(x):
-                try:
-                    ft = x.final_target if x.is_alias else x
-                    return [bool(x.is_alias), x.path, id(ft)]
-                except (ARE, CAE, KeyError, AttributeError, ValueError) as e2:
-                    return ["unresolvable", type(e2).__name__]
-
-            def attempt(f):
-                try:
-                    return view(f())
-                except (ARE, CAE) as e2:
-                    return ["alias-error"]
-                except (KeyError, AttributeError, ValueError) as e2:
-                    return ["rejected"]
-
-            for q, _, m in walk():
-                if not (m.is_alias and m.resolved):
-                    continue
-                try:
-                    ft = m.final_target
-                    names = list(ft.members)[:3]
-                except (ARE, CAE, KeyError, AttributeError, ValueError):
-                    continue
-                for n2 in names:
-                    full = q + (n2,)
-                    chained = attempt(lambda: col.get_member(q).get_member(n2))
-                    one_by_one = attempt(lambda: functools_reduce_get(col, full))
-                    for form_name, f in (("get_member(str)", lambda: col.get_member(".".join(full))), ("get_member(tuple)", lambda: col.get_member(full)),
-                                         ("getitem(str)", lambda: col[".".join(full)]), ("getitem(tuple)", lambda: col[full])):
-                        got = attempt(f)
-                        ctx.observe("impl_only_cross_alias", form_name)
-                        if got != chained or got != one_by_one:
-                            ctx.observe("direct_failure", "impl-only:dotted-eq-chained")
-                            ctx.property_failure({"stream": label, "history": list(hist)},
-                                                 {"clause": "dotted-eq-chained", "detail": {"path": ".".join(full), "form": form_name, "dotted": got[:2], "chained": chained[:2]}})
-                            return
+        # lookup THROUGH an alias = lookup through its final target, after every operation (so that a lookup precedes and follows
+        # every mutation): the names are those of the target's members NOW; what `alias_path.name` returns - by get_member or [],
+        # dotted string or tuple, in one go, chained, or one name at a time - is a wrapper alias whose path continues the alias's
+        # path, whose target is the object the target holds under that name NOW, and which is listed among that object's aliases
+        bad = through_alias_clause(ctx, col, walk(), (ARE, CAE))
+        if bad is not None:
+            ctx.observe("direct_failure", "impl-only:" + bad[0])
+            ctx.property_failure({"stream": label, "history": list(hist)}, {"clause": bad[0], "detail": bad[1]})
+            return
     ctx.case({"stream": label, "ops": hist}, len(hist) > 3)
     ctx.observe("stream", label)
 
